@@ -91,7 +91,18 @@ def gen(rnd):
             a2['position'] = list(np.array(a1['position']) + dvec * target)
     sel = rnd.choice(['bb', 'bb', 'names', 'flag', 'chainA', 'all'])
     dom = rnd.choice(['all', 'chain', 'regions'])
-    regions = [(1, 6), (8, 20)] if rnd.random() < 0.5 else [(12, 2), (15, 40)]
+    r = rnd.random()
+    if r < 0.25:
+        regions = [(1, 6), (8, 20)]
+    elif r < 0.5:
+        regions = [(12, 2), (15, 40)]
+    else:
+        # overlapping, nested, touching and reversed regions: "same domain" is then not an equivalence relation
+        top = max([a['resid'] for k, a in atoms] + [4]) + 2
+        regions = []
+        for _ in range(rnd.randint(2, 4)):
+            lo = rnd.randint(0, top)
+            regions.append((lo, rnd.randint(0, top)) if rnd.random() < 0.3 else (lo, min(top, lo + rnd.randint(0, 8))))
     sep = rnd.choice([0, 1, 2, 3, 4, None])
     return {'atoms': atoms, 'edges': edges, 'upper': upper, 'lower': lower, 'decay': decay, 'base': base, 'fmin': fmin,
             'sel': sel, 'dom': dom, 'regions': regions, 'sep': sep, 'ffsep': rnd.choice([None, 1, 3]),
